@@ -25,7 +25,7 @@ AllKeys == (1..Len(P)) \X (0..AMax) \X Ctxs
 Absent == [present |-> FALSE]
 Has(k) == memo[k].present
 
-Frame(k) == [k |-> k, pc |-> 1, invs |-> <<>>, res |-> <<>>, deps |-> {k[1]}, subs |-> <<>>, ab |-> <<>>,
+Frame(k) == [k |-> k, pc |-> 1, invs |-> <<>>, res |-> <<>>, deps |-> {k[1]}, subs |-> <<>>, ab |-> <<>>, u |-> FALSE,
              inbatch |-> FALSE, bq |-> <<>>, bvals |-> <<>>]
 Top == stack[Len(stack)]
 SetTop(fr) == [stack EXCEPT ![Len(stack)] = fr]
@@ -105,7 +105,7 @@ Step ==
         IF fr.bq = <<>>
         THEN \* the batch is complete: call_batch returns the list or raises the first exception
              LET s    == body[fr.pc]
-                 errs == {j \in 1..Len(fr.bvals) : fr.bvals[j].out = "E"}
+                 errs == {j \in 1..Len(fr.bvals) : fr.bvals[j].out # "V"}
                  vals == [j \in 1..Len(fr.bvals) |-> fr.bvals[j].val]
                  base == [fr EXCEPT !.inbatch = FALSE, !.bvals = <<>>, !.pc = @ + 1]
              IN /\ stack' = SetTop(
@@ -120,10 +120,12 @@ Step ==
              ELSE stack' = Append(stack, Frame(e.k)) /\ ran' = Append(ran, <<e.k[1], e.k[2]>>) /\ UNCHANGED <<memo, rq, rvals, out>>
      ELSE IF fr.pc > Len(body) \/ fr.ab # <<>>
      THEN \* the body returned or raised: memoize, pop, propagate (finally block)
-          LET rec == [present |-> TRUE, out |-> IF fr.ab = <<>> THEN "V" ELSE "E",
+          \* (fr.u: the body returned a value that cannot be stored: memoize fails after the body ran, the call raises, nothing
+          \*  is recorded -- the frame is still popped and the invocation propagated to the caller, in the finally block)
+          LET rec == [present |-> TRUE, out |-> IF fr.ab = <<>> THEN "V" ELSE IF fr.u THEN "U" ELSE "E",
                       val |-> IF fr.ab = <<>> THEN <<"V", f, a, fr.subs>> ELSE fr.ab,
                       invs |-> fr.invs, res |-> fr.res, deps |-> fr.deps]
-          IN /\ memo' = [memo EXCEPT ![fr.k] = rec]
+          IN /\ memo' = IF fr.u THEN memo ELSE [memo EXCEPT ![fr.k] = rec]
              /\ IF Len(stack) > 1
                 THEN /\ stack' = [Pop EXCEPT ![Len(stack) - 1] = Deliver(stack[Len(stack) - 1], fr.k, rec)]
                      /\ UNCHANGED <<rq, rvals, out>>
@@ -134,6 +136,9 @@ Step ==
      ELSE LET s == body[fr.pc] IN
           CASE s.t = "raise" ->
                  /\ stack' = SetTop(IF a = s.when THEN [fr EXCEPT !.ab = <<"E", f, a>>] ELSE [fr EXCEPT !.pc = @ + 1])
+                 /\ UNCHANGED <<memo, ran, rq, rvals, out>>
+            [] s.t = "bad" ->
+                 /\ stack' = SetTop(IF a = s.when THEN [fr EXCEPT !.ab = <<"U">>, !.u = TRUE] ELSE [fr EXCEPT !.pc = @ + 1])
                  /\ UNCHANGED <<memo, ran, rq, rvals, out>>
             [] s.t = "res" ->
                  /\ stack' = SetTop([fr EXCEPT !.res = Append(@, s.r), !.pc = @ + 1]) /\ UNCHANGED <<memo, ran, rq, rvals, out>>
@@ -166,7 +171,7 @@ MemProj == [i \in 1..Len(KeySeq) |-> LET k == KeySeq[i] IN
 Complete ==
   /\ stack = <<>> /\ rq = <<>> /\ cur.op # "none"
   /\ cur.op = "Call" => out # <<>>
-  /\ LET errs == {j \in 1..Len(rvals) : rvals[j].out = "E"}
+  /\ LET errs == {j \in 1..Len(rvals) : rvals[j].out # "V"}
          bout == IF cur.op # "Batch" THEN <<>>
                  ELSE IF cur.rf /\ errs # {} THEN rvals[CHOOSE j \in errs : \A k \in errs : j <= k].val
                  ELSE <<"L", [j \in 1..Len(rvals) |-> rvals[j].val]>>
@@ -191,7 +196,7 @@ ProvenanceExact ==
   \A k \in AllKeys : Has(k) =>
       LET d == Den(P, k[1], k[2], k[3]) IN
       /\ memo[k].invs = d.invs /\ memo[k].res = d.res /\ memo[k].deps = d.deps
-      /\ memo[k].out = d.out /\ memo[k].val = d.val
+      /\ memo[k].out = d.out /\ memo[k].val = d.val /\ d.out # "U"
 \* the call stack is empty whenever no operation is in progress
 StackDiscipline == cur.op = "none" => stack = <<>>
 =============================================================================
